@@ -283,34 +283,36 @@ theorem combine_greedy_misses_a_combination :
 
 /-! ### eval -/
 
-/-- **eval computes its documented output** (results in order — a later expression sees fields and tags first, earlier
-results otherwise; listed string results become tags; fields by keep mode; any error drops the point) for every
-configuration the pipeline accepts (as many names as expressions, `.tags()` ⊆ `.as()`) and every point on which no result
-is shadowed (the recorded deviation below). `none` = the point is dropped; fields and tags are compared as maps. -/
+/-- **eval computes its documented output** (results in order — a later expression sees earlier results first, fields and
+tags otherwise; listed string results become tags; fields by keep mode; any error drops the point) for every configuration
+the pipeline accepts (as many names as expressions, `.tags()` ⊆ `.as()`) and EVERY point (the code as repaired by the
+`fix:` commit recorded in findings/C10.txt). `none` = the point is dropped; fields and tags are compared as maps. -/
 theorem eval_spec (c : EvalCfg) (fields : Fields) (tags : Tags)
-    (hlen : c.as.length = c.exprs.length) (htags : ∀ t ∈ c.tags, t ∈ c.as)
-    (hsh : evalShadowed c fields tags = false) :
+    (hlen : c.as.length = c.exprs.length) (htags : ∀ t ∈ c.tags, t ∈ c.as) :
     match evalFT c fields tags, specEvalFT c fields tags with
     | none, none => True
     | some (f, t), some (f', t') => mapEqB f f' = true ∧ mapEqB t t' = true
     | _, _ => False :=
-  evalFT_spec c fields tags hlen htags hsh
+  evalFT_spec c fields tags hlen htags
 
-/-- non-vacuity: two expressions, the second uses the first result, one result becomes a tag, keep(list) -/
+/-- non-vacuity: the second expression uses the first result although a FIELD of that name exists, one result becomes a
+tag, keep(list) -/
 example :
-    let c : EvalCfg := { exprs := [.bin .add (.ref "v") (.lit (.int 1)), .bin .mul (.ref "x") (.lit (.int 2)), .bin .add (.ref "h") (.lit (.str "!"))],
-                         as := ["x", "y", "t"], tags := ["t"], keep := true, keepList := ["y", "v"] }
-    c.as.length = c.exprs.length ∧ (∀ t ∈ c.tags, t ∈ c.as) ∧ evalShadowed c [("v", .int 1)] [("h", "a")] = false ∧
-      evalFT c [("v", .int 1)] [("h", "a")] = some ([("y", .int 4), ("v", .int 1)], [("h", "a"), ("t", "a!")]) := by
+    let c : EvalCfg := { exprs := [.bin .add (.ref "v") (.lit (.int 1)), .bin .mul (.ref "v") (.lit (.int 2)), .bin .add (.ref "h") (.lit (.str "!"))],
+                         as := ["v", "y", "t"], tags := ["t"], keep := true, keepList := ["y", "v"] }
+    c.as.length = c.exprs.length ∧ (∀ t ∈ c.tags, t ∈ c.as) ∧
+      evalFT c [("v", .int 1)] [("h", "a")] = some ([("y", .int 4), ("v", .int 2)], [("h", "a"), ("t", "a!")]) := by
   decide
 
-/-- Recorded finding `eval-result-shadowed`: eval(lambda: "v" + 1, lambda: "v" * 2).as('v','y').keep() on v=1 — the second
-expression re-binds "v" to the field, the emitted v is the original 1, the result 2 is lost
-(corpus/C10/finding-eval-result-shadowed.ops). -/
-theorem eval_shadowed_result_is_lost :
+/-- Counterexample (the defect repaired by the eval `fix:` commit): in snapshot ef0888e
+eval(lambda: "v" + 1, lambda: "v" * 2).as('v','y').keep() on v=1 re-bound "v" to the field before the second expression:
+y = 2 instead of 4 and the emitted v is the original 1 — the first result is lost
+(replayed on the real code by corpus/C10/eval-result-shadowed.ops). -/
+theorem eval_old_loses_shadowed_result :
     ∃ (c : EvalCfg) (fields : Fields), evalShadowed c fields [] = true ∧
-      (evalFT c fields []).map (fun r => aget r.1 "v") = some (some (.int 1)) ∧
-      (specEvalFT c fields []).map (fun r => aget r.1 "v") = some (some (.int 2)) :=
+      (evalFTOld c fields []).map (fun r => (aget r.1 "v", aget r.1 "y")) = some (some (.int 1), some (.int 2)) ∧
+      (specEvalFT c fields []).map (fun r => (aget r.1 "v", aget r.1 "y")) = some (some (.int 2), some (.int 4)) ∧
+      (evalFT c fields []).map (fun r => (aget r.1 "v", aget r.1 "y")) = some (some (.int 2), some (.int 4)) :=
   ⟨{ exprs := [.bin .add (.ref "v") (.lit (.int 1)), .bin .mul (.ref "v") (.lit (.int 2))], as := ["v", "y"], keep := true },
    [("v", .int 1)], by decide⟩
 
